@@ -157,6 +157,28 @@ func newMemSSA(fn *ssa.Function) *MemSSA {
 					ks[k] = true
 					m.keyType[k] = deref(in.Addr.Type())
 				}
+			case *ssa.Call:
+				// fields a callee is known to leave at a constant are worth tracking here too
+				cal := in.Common().StaticCallee()
+				if cal == nil || !inRepo(cal) || cal.Blocks == nil || cal == fn || len(in.Common().Args) == 0 {
+					continue
+				}
+				base := m.addrKey(in.Common().Args[0])
+				if base == "" {
+					continue
+				}
+				st, ok := deref(in.Common().Args[0].Type()).Underlying().(*types.Struct)
+				if !ok {
+					continue
+				}
+				for f := range finalConstStores(cal) {
+					for i := 0; i < st.NumFields(); i++ {
+						if canonFieldName(in.Common().Args[0].Type(), i) == f {
+							ks[base+"."+f] = true
+							m.keyType[base+"."+f] = st.Field(i).Type()
+						}
+					}
+				}
 			}
 		}
 	}
@@ -328,7 +350,27 @@ func (m *MemSSA) transfer(in ssa.Instruction, cur map[string]*MemVer) {
 				effKeys = append(effKeys, k)
 			}
 		}
+		// fields the callee leaves at a known constant on every path
+		must := map[string]*ssa.Const{}
+		if cal := com.StaticCallee(); cal != nil && inRepo(cal) && cal.Blocks != nil && len(args) > 0 && cal != m.fn {
+			if base := m.addrKey(args[0]); base != "" {
+				for f, c := range finalConstStores(cal) {
+					must[base+"."+f] = c
+				}
+			}
+		}
 		for _, k2 := range m.keys {
+			if c, ok := must[k2]; ok {
+				id := fmt.Sprintf("%p|must|%s", in, k2)
+				v, have := m.clobbers[id]
+				if !have {
+					m.nextID++
+					v = &MemVer{Kind: mStore, Key: k2, Val: c, Instr: in, id: m.nextID}
+					m.clobbers[id] = v
+				}
+				cur[k2] = v
+				continue
+			}
 			hit := false
 			if useEff {
 				for _, e := range effKeys {
@@ -580,4 +622,61 @@ func (m *MemSSA) phiIncoming(ph *MemVer, pred int) *MemVer {
 		return o[ph.Key]
 	}
 	return nil
+}
+
+// finalConstStores: for a repository function with a pointer receiver/first
+// parameter p, the fields p.f that hold one and the same constant (nil, 0, …)
+// at every return because the function stored it there on every path.
+var (
+	finalStoreMemo = map[*ssa.Function]map[string]*ssa.Const{}
+	finalStoreBusy = map[*ssa.Function]bool{}
+)
+
+func finalConstStores(fn *ssa.Function) map[string]*ssa.Const {
+	if m, ok := finalStoreMemo[fn]; ok {
+		return m
+	}
+	out := map[string]*ssa.Const{}
+	if fn == nil || fn.Blocks == nil || len(fn.Params) == 0 || finalStoreBusy[fn] || !inRepo(fn) {
+		return out
+	}
+	if _, isPtr := fn.Params[0].Type().Underlying().(*types.Pointer); !isPtr {
+		finalStoreMemo[fn] = out
+		return out
+	}
+	finalStoreBusy[fn] = true
+	defer delete(finalStoreBusy, fn)
+	m := newMemSSA(fn)
+	pre := "P:" + fn.Params[0].Name() + "."
+	rets := returnsOf(fn)
+	for _, k := range m.keys {
+		if !strings.HasPrefix(k, pre) || strings.ContainsAny(k[len(pre):], ".[*{") {
+			continue
+		}
+		var c *ssa.Const
+		ok := len(rets) > 0
+		for _, ret := range rets {
+			v := m.versionAt(ret, k)
+			if v == nil || v.Kind != mStore {
+				ok = false
+				break
+			}
+			cv, isC := v.Val.(*ssa.Const)
+			if !isC {
+				ok = false
+				break
+			}
+			if c == nil {
+				c = cv
+			} else if !(c.Value == nil && cv.Value == nil) && !(c.Value != nil && cv.Value != nil && c.Value.ExactString() == cv.Value.ExactString()) {
+				ok = false
+				break
+			}
+		}
+		if ok && c != nil {
+			out[k[len(pre):]] = c
+		}
+	}
+	finalStoreMemo[fn] = out
+	return out
 }
